@@ -3,20 +3,16 @@ Triples of the container primitives and of `map.rs::internal`
 (`insert_ii`, `insert_ii_for_full`, `insert_i`, `remove_index_read`, `remove_index_drop`).
 -/
 import Micromap.Proofs.Lookup
+import Micromap.Spec.Dict
 
 namespace Micromap
 variable {K V Q : Type}
 
 /-! ### L1: list-level counterparts -/
 
-/-- swap-remove: the last element moves into the hole. -/
-def swapRemove (l : List (K × V)) (i : Nat) : List (K × V) :=
-  if i + 1 = l.length then l.dropLast
-  else match l.getLast? with
-    | some x => (l.set i x).dropLast
-    | none => l
+open Dict (swapRemove)
 
-theorem swapRemove_length {l : List (K × V)} {i} (hi : i < l.length) :
+theorem swapRemove_length' {l : List (K × V)} {i} (hi : i < l.length) :
     (swapRemove l i).length = l.length - 1 := by
   unfold swapRemove
   split
@@ -119,10 +115,10 @@ theorem remove_index_read_sat {s : St K V Q} {l} (hr : Rep s.r l) {i} (hi : i < 
     simp only [ne_eq, not_true_eq_false, if_false]
     refine Sat.pure ⟨rfl, ?_, rfl, WRel.refl _⟩
     · refine Rep.of_prefix ?_ ?_ ?_
-      · simp [swapRemove_length hi]
-      · rw [swapRemove_length hi]; exact Nat.le_trans (Nat.sub_le _ _) hr.2.1
+      · simp [swapRemove_length' hi]
+      · rw [swapRemove_length' hi]; exact Nat.le_trans (Nat.sub_le _ _) hr.2.1
       · intro j hj
-        rw [swapRemove_length hi] at hj
+        rw [swapRemove_length' hi] at hj
         have hji : j ≠ l.length - 1 := by omega
         show (setSlot s.r (l.length - 1) none).slots j = _
         rw [setSlot_other _ _ hji, hr.2.2 j (by omega)]
@@ -146,10 +142,10 @@ theorem remove_index_read_sat {s : St K V Q} {l} (hr : Rep s.r l) {i} (hi : i < 
     intro _ s2 ⟨h1, h2⟩
     refine Sat.pure ⟨rfl, ?_, by rw [h1]; rfl, h2⟩
     refine Rep.of_prefix ?_ ?_ ?_
-    · rw [h1]; simp [swapRemove_length hi]
-    · rw [h1, swapRemove_length hi]; exact Nat.le_trans (Nat.sub_le _ _) hr.2.1
+    · rw [h1]; simp [swapRemove_length' hi]
+    · rw [h1, swapRemove_length' hi]; exact Nat.le_trans (Nat.sub_le _ _) hr.2.1
     · intro j hj
-      rw [swapRemove_length hi] at hj
+      rw [swapRemove_length' hi] at hj
       rw [h1]
       unfold swapRemove
       have hne2 : ¬ i + 1 = l.length := by omega
